@@ -48,7 +48,8 @@ type VC struct {
 	quiet       bool            // suppress obligations (spec-side pure evaluation)
 	guarded     [][2]string     // lock discipline of the function under contract (field, mutex field)
 	guardN      int
-	inQuant     int // >0 while evaluating a quantifier body
+	opaque      map[string]bool // in-repository callees treated as unknown code in this function
+	inQuant     int             // >0 while evaluating a quantifier body
 	defs        map[string]string
 	lemma       map[int]bool // assumption indices that are proved-elsewhere lemmas
 	lastType    map[string]types.Type
